@@ -183,6 +183,8 @@ inductive Action where
   | dropVar (v : Nat)
   | addDep (e child : Opnd) (cb : Bool)
   | arm (k : Nat)
+  | dropAll
+  | expectPanic (classes : List String)
   | setMaxHeight (n : Nat)
   | stabilise
   | isStable
@@ -215,6 +217,8 @@ def parseAction (toks : List String) : Option Action :=
   | ["dropvar", v] => (.dropVar ·) <$> parseIdx "v" v
   | ["adddep", e, c, cb] => do pure (.addDep (← parseOpnd e) (← parseOpnd c) (cb == "cb"))
   | ["arm", k] => (.arm ·) <$> k.toNat?
+  | ["dropall"] => some .dropAll
+  | "expectpanic" :: cls => some (.expectPanic cls)
   | ["setmaxheight", k] => (.setMaxHeight ·) <$> k.toNat?
   | ["stabilise"] => some .stabilise
   | ["isstable"] => some .isStable
